@@ -11,6 +11,10 @@ From Gen Require Import Ident Classes.
 
 Theorem C05_leaf_copy_faithful : forall l, class_faithful (class_of (l_cls l)) = true -> copy_leaf l = l.
 Proof. exact copy_leaf_faithful. Qed.
+Theorem C05_link_copies_faithful :
+  relation_link_copy_keeps_type = true /\ multi_link_copy_keeps_type = true /\ multi_link_copy_keeps_group = true.
+Proof. exact link_copies_faithful. Qed.
+Print Assumptions C05_link_copies_faithful.
 Print Assumptions C05_leaf_copy_faithful.
 
 (* every class' copy() transfers the relation link and every init field (obligation on the generated table) *)
